@@ -183,9 +183,12 @@ fn main() {
                     ("samples".into(), Json::arr(c.samples.iter().map(|s| Json::esc(s)))),
                 ]);
                 std::fs::write(format!("{dir}/cases.json"), j).unwrap();
+                std::process::exit(0);
             } else {
                 let s = props::sweep(prop, thorough, seed);
                 std::fs::write(format!("{dir}/sweep.json"), s.to_json()).unwrap();
+                // a helper thread may still be stuck in a non-terminating loop: leave without joining it
+                std::process::exit(0);
             }
         }
         _ => {
